@@ -596,3 +596,165 @@ func VfMultipartProgram() {
 	_, od, _, _ := vfObjectState(vfPartPath("bkt", key, up2.UploadId, 1))
 	zzvf.Assert(zzvf.BytesEq(od, other), "other-upload's-part-unchanged")
 }
+
+// ---- C09: version history
+
+type vfVersion struct {
+	id     string
+	data   []byte
+	marker bool
+}
+
+// VfVersions: C09 – a program of put / delete (marker) / delete-by-id on one key of a versioning-enabled bucket, from an
+// absent key or an object that predates versioning; afterwards every version of the reference history is retrievable
+// byte-exact under its id, the key reads as the newest version (missing if that is a marker), and ListObjectVersions
+// reports exactly the history, newest first, with exactly one latest.
+func VfVersions() {
+	nops := 2 + zzvf.Tier()
+	zzvf.Bound("operations_max", nops)
+	vfWorld()
+	p := vfNewPosix(vfConfig{versioning: true})
+	vfMustBucket(p, "bkt")
+	key := "k"
+	one := int64(1)
+	var hist []vfVersion // oldest first
+	if zzvf.Choice("predates_versioning", 2) == 1 {
+		b := zzvf.BytesN("null_body", 1)
+		_, err := p.PutObject(vfCtx(), s3response.PutObjectInput{Bucket: vfStr("bkt"), Key: &key, Body: bytes.NewReader(b), ContentLength: &one})
+		zzvf.Assert(err == nil, "setup-null-version")
+		hist = append(hist, vfVersion{id: "null", data: b})
+	}
+	zzvf.Assert(p.PutBucketVersioning(vfCtx(), "bkt", types.BucketVersioningStatusEnabled) == nil, "setup-enable-versioning")
+	ids := map[string]bool{"null": true}
+	n := 1 + zzvf.Choice("operations", nops)
+	for i := 0; i < n; i++ {
+		switch zzvf.Choice("op", 4) {
+		case 3: // multipart upload (one part of two bytes) onto the key
+			b := zzvf.BytesN("mp_body", 2)
+			up, err := p.CreateMultipartUpload(vfCtx(), s3response.CreateMultipartUploadInput{Bucket: vfStr("bkt"), Key: &key})
+			zzvf.Assert(err == nil, "mp-create")
+			two, pn := int64(2), int32(1)
+			pr, err := p.UploadPart(vfCtx(), &s3.UploadPartInput{Bucket: vfStr("bkt"), Key: &key, UploadId: &up.UploadId, PartNumber: &pn, Body: bytes.NewReader(b), ContentLength: &two})
+			zzvf.Assert(err == nil, "mp-upload-part")
+			if err != nil {
+				return
+			}
+			res, err := p.CompleteMultipartUpload(vfCtx(), &s3.CompleteMultipartUploadInput{Bucket: vfStr("bkt"), Key: &key, UploadId: &up.UploadId,
+				MultipartUpload: &types.CompletedMultipartUpload{Parts: []types.CompletedPart{{PartNumber: &pn, ETag: pr.ETag}}}})
+			zzvf.Assert(err == nil, "mp-complete")
+			if err != nil {
+				return
+			}
+			zzvf.Assert(zzvf.And(res.VersionId != nil, !ids[*res.VersionId]), "every-write-yields-a-new-distinct-version-id")
+			ids[*res.VersionId] = true
+			hist = append(hist, vfVersion{id: *res.VersionId, data: b})
+		case 0: // put
+			b := zzvf.BytesN("body", 1)
+			out, err := p.PutObject(vfCtx(), s3response.PutObjectInput{Bucket: vfStr("bkt"), Key: &key, Body: bytes.NewReader(b), ContentLength: &one})
+			zzvf.Assert(err == nil, "put-succeeds")
+			zzvf.Assert(zzvf.And(out.VersionID != "", !ids[out.VersionID]), "every-write-yields-a-new-distinct-version-id")
+			ids[out.VersionID] = true
+			hist = append(hist, vfVersion{id: out.VersionID, data: b})
+		case 1: // delete without id: adds a marker
+			out, err := p.DeleteObject(vfCtx(), &s3.DeleteObjectInput{Bucket: vfStr("bkt"), Key: &key})
+			if len(hist) == 0 {
+				continue // deleting a key that never existed: S3 creates a marker too; the gateway may answer either way
+			}
+			zzvf.Assert(err == nil, "delete-succeeds")
+			if err == nil && out != nil && out.VersionId != nil {
+				zzvf.Assert(!ids[*out.VersionId], "delete-marker-has-a-new-id")
+				ids[*out.VersionId] = true
+				hist = append(hist, vfVersion{id: *out.VersionId, marker: true})
+			} else {
+				zzvf.Fail("delete-without-id-returns-the-marker's-version-id")
+				return
+			}
+		case 2: // delete the newest version by id
+			if len(hist) == 0 {
+				continue
+			}
+			last := hist[len(hist)-1]
+			_, err := p.DeleteObject(vfCtx(), &s3.DeleteObjectInput{Bucket: vfStr("bkt"), Key: &key, VersionId: &last.id})
+			zzvf.Assert(err == nil, "delete-by-id-succeeds")
+			hist = hist[:len(hist)-1]
+		}
+	}
+	zzvf.Reach("program-done")
+	// every version is retrievable byte-exact under its id
+	for _, v := range hist {
+		id := v.id
+		g, err := p.GetObject(vfCtx(), &s3.GetObjectInput{Bucket: vfStr("bkt"), Key: &key, VersionId: &id, Range: vfStr("")})
+		if v.marker {
+			zzvf.Assert(err != nil, "get-of-a-delete-marker-is-an-error")
+			continue
+		}
+		zzvf.Assert(err == nil, "every-version-stays-retrievable-by-id")
+		if err == nil {
+			got, _ := io.ReadAll(g.Body)
+			zzvf.Assert(zzvf.BytesEq(got, v.data), "version-content-is-byte-exact")
+		}
+	}
+	// the key reads as its newest version
+	g, err := p.GetObject(vfCtx(), &s3.GetObjectInput{Bucket: vfStr("bkt"), Key: &key, Range: vfStr("")})
+	if len(hist) == 0 || hist[len(hist)-1].marker {
+		zzvf.Assert(err != nil, "key-reads-as-missing-after-marker-or-when-empty")
+	} else {
+		zzvf.Assert(err == nil, "key-reads-as-its-newest-version")
+		if err == nil {
+			got, _ := io.ReadAll(g.Body)
+			zzvf.Assert(zzvf.BytesEq(got, hist[len(hist)-1].data), "newest-version-content")
+		}
+	}
+	// listing
+	mk := int32(100)
+	lv, err := p.ListObjectVersions(vfCtx(), &s3.ListObjectVersionsInput{Bucket: vfStr("bkt"), Delimiter: vfStr(""), KeyMarker: vfStr(""),
+		MaxKeys: &mk, Prefix: vfStr(""), VersionIdMarker: vfStr("")})
+	zzvf.Assert(err == nil, "list-versions-succeeds")
+	if err != nil {
+		return
+	}
+	nv, nm := 0, 0
+	for _, v := range hist {
+		if v.marker {
+			nm++
+		} else {
+			nv++
+		}
+	}
+	zzvf.Assert(zzvf.And(len(lv.Versions) == nv, len(lv.DeleteMarkers) == nm), "list-versions-reports-exactly-the-history")
+	latest := 0
+	for _, ov := range lv.Versions {
+		if ov.IsLatest != nil && *ov.IsLatest {
+			latest++
+		}
+		found := false
+		for _, v := range hist {
+			if !v.marker && ov.VersionId != nil && *ov.VersionId == v.id {
+				found = true
+			}
+		}
+		zzvf.Assert(found, "listed-version-id-is-in-the-history")
+	}
+	for _, dm := range lv.DeleteMarkers {
+		if dm.IsLatest != nil && *dm.IsLatest {
+			latest++
+		}
+	}
+	if len(hist) > 0 {
+		zzvf.Assert(latest == 1, "exactly-one-entry-is-flagged-latest")
+	}
+	// newest first among the object versions
+	for i := 0; i+1 < len(lv.Versions); i++ {
+		a, b := *lv.Versions[i].VersionId, *lv.Versions[i+1].VersionId
+		ia, ib := -1, -1
+		for j, v := range hist {
+			if v.id == a {
+				ia = j
+			}
+			if v.id == b {
+				ib = j
+			}
+		}
+		zzvf.Assert(ia > ib, "versions-are-listed-newest-first")
+	}
+}
